@@ -30,3 +30,31 @@ for d in sorted(glob.glob(os.path.join(V, "seeded", "C*_*"))):
     json.dump(res, open(out, "w"), indent=1, sort_keys=True)
     print(name, {k: v.get("detected") for k, v in r.items() if isinstance(v, dict)}, flush=True)
 json.dump(res, open(out, "w"), indent=1, sort_keys=True)
+
+# ---- human-readable summary
+lines = ["# Seeded property-breaking changes", "",
+         "Written by independent sub-agents (property text + scratch worktree only); each passes the 138 repository tests and was re-confirmed with",
+         "`tools/seedcheck.py` (demo exits 0 on the clean tree, non-zero with the patch).  `detected` = the owning property's quick check exits 1 on the",
+         "repaired tree + patch (run through `tools/mut.py`, i.e. a scratch copy via NMFU_REPO).", "",
+         "| seed | property check | detected | what it needs / note |", "|---|---|---|---|"]
+for name in sorted(res):
+    r = res[name]
+    meta = {}
+    try:
+        meta = json.load(open(os.path.join(V, "seeded", name, "meta.json")))
+    except Exception:
+        pass
+    needs = (meta.get("needs") or "")[:160].replace("|", "/").replace("\n", " ")
+    if not r.get("applies"):
+        lines.append("| %s | %s | n/a | %s |" % (name, name.split("_")[0], r.get("note", "")[:160]))
+        continue
+    prop = name.split("_")[0]
+    det = r.get(prop, {}).get("detected")
+    others = [k for k, v in r.items() if isinstance(v, dict) and k != prop and v.get("detected")]
+    note = needs + ((" (also caught by " + ", ".join(others) + ")") if others else "")
+    if det is False:
+        extra = (meta.get("our_checks") or {})
+        also = [k for k, v in extra.items() if "exit=1" in v]
+        note += " **missed by %s**" % prop + ((" - caught by " + ", ".join(also)) if also else "")
+    lines.append("| %s | %s | %s | %s |" % (name, prop, "yes" if det else "NO", note))
+open(os.path.join(V, "seeded", "README.md"), "w").write("\n".join(lines) + "\n")
